@@ -125,6 +125,9 @@ func vHugeBytes(n int) []byte { return make([]byte, n) }
 // replay harness closes what it opened itself; nothing to do here.
 func vKernelDropHandles() {}
 
+func vLookup32(table []uint32, idx uint8) uint32 { return table[idx] }
+func vGobFields(v interface{}) string                { return "" }
+
 func vAssume(b bool) {
 	if !b {
 		panic(vAssumeFailed{})
